@@ -474,8 +474,17 @@ func (pool *TxPool) SetGasPrice(price *big.Int) {
 	defer pool.mu.Unlock()
 
 	pool.gasPrice = price
+	var dropped []common.Address
 	for _, tx := range pool.priced.Cap(price, pool.locals) {
 		pool.removeTx(tx.Hash())
+		if from, err := types.Sender(pool.signer, tx); err == nil {
+			dropped = append(dropped, from)
+		}
+	}
+	// removeTx moved the later pending transactions of these senders into their queues:
+	// re-run the queue limits for them
+	if len(dropped) > 0 {
+		pool.promoteExecutables(dropped)
 	}
 	log.Info("Transaction pool price threshold updated", "price", price)
 }
@@ -635,10 +644,19 @@ func (pool *TxPool) add(tx *types.Transaction, local bool) (bool, error) {
 		}
 		// New transaction is better than our worse ones, make room for it
 		drop := pool.priced.Discard(len(pool.all)-int(pool.config.GlobalSlots+pool.config.GlobalQueue-1), pool.locals)
+		evicted := make([]common.Address, 0, len(drop))
 		for _, tx := range drop {
 			log.Trace("Discarding freshly underpriced transaction", "hash", tx.Hash(), "price", tx.GasPrice())
 			underpricedTxCounter.Inc(1)
 			pool.removeTx(tx.Hash())
+			if from, err := types.Sender(pool.signer, tx); err == nil {
+				evicted = append(evicted, from)
+			}
+		}
+		// removeTx moved the later pending transactions of the evicted senders into their
+		// queues; the callers re-run the queue limits only for the submitting account
+		if len(evicted) > 0 {
+			pool.promoteExecutables(evicted)
 		}
 	}
 	// If the transaction is replacing an already pending one, do directly
